@@ -7,6 +7,8 @@ INVARIANT V0416Characterised
 INVARIANT MergeExact
 INVARIANT InputChunksHazard
 INVARIANT MergesExist
+INVARIANT ThinAxis
 INVARIANT BallNotCube
+INVARIANT EmitSlab
 INVARIANT Emit
 CHECK_DEADLOCK FALSE
